@@ -25,6 +25,7 @@ def op? : Sexp → Option Op
   | .list [.atom "ss"] => some .ss
   | .list [.atom "sr"] => some .sr
   | .list [.atom "svc"] => some .svc
+  | .list [.atom "rst"] => some .rst
   | _ => none
 
 def exnS : Option Exn → Sexp
